@@ -102,4 +102,14 @@ def initSt (j : Json) : St :=
   { p := { maxCurrentFeeds := (g "max").toNat, powerStep := g "step", minInterval := g "minI", maxInterval := g "maxI" },
     st := State.empty }
 
-def main : IO UInt32 := runDriver { init := initSt, step := step }
+/-- after a DIFF the model's state stays the specification's truth (it is a function of the inputs only) as
+    long as implementation and model agreed on accepting/rejecting the vote; then the monitors keep running -/
+def resync (pre post : St) (j : Json) : Except String St := do
+  let op ← jstr j "op"
+  if op != "vote" then return post
+  let out ← jget j "out"
+  let ierr ← jstr out "err"
+  let (_, e) := vote pre.p pre.st (← jnat j "voter") (← parseSigs j "signals") (← jint (← jget j "env") "totalPower")
+  if (ierr == "") == (e.code == "") then pure post else throw "acceptance differs"
+
+def main : IO UInt32 := runDriver { init := initSt, step := step, resync := some resync }
